@@ -303,6 +303,9 @@ def pair_cases(draw):
         if style != "grid" and draw(st.booleans()):
             # edges a few nanoseconds inside A's entries: labelled slivers are labelled time too
             bs |= {t + 5e-9 for e in A["entries"] for t in e[:1]} | {t - 5e-9 for e in A["entries"] for t in e[1:2] if t > 1e-6}
+        if style != "grid" and draw(st.booleans()):
+            # an overlap of a unit or two in the last place is an overlap
+            bs |= {math.nextafter(t, -math.inf) for e in A["entries"] for t in e[1:2] if t > 1e-6} | {math.nextafter(math.nextafter(t, math.inf), math.inf) for e in A["entries"] for t in e[:1]}
         bs = sorted(bs)
         ents = []
         i = 0
